@@ -14,7 +14,7 @@ VARIABLE l
 IsEvent(e) == l <= NRec /\ Rec[l].ev = e /\ l' = l + 1
 
 Block(r) == [tag |-> r.tag, bodies |-> r.bodies, wits |-> r.wits, aux |-> r.aux,
-             invalid |-> IF r.has_invalid THEN Range(r.invalid) ELSE NoField]
+             has_invalid |-> r.has_invalid, invalid |-> r.invalid]
 
 TInit == l = 1
 
